@@ -622,8 +622,8 @@ def iterfit(xdata, ydata, invvar=None, upper=5, lower=5, x2=None,
         requiren = None
     if 'oldset' in kwargs:
         sset = kwargs['oldset']
-        sset.mask = True
-        sset.coeff = 0
+        sset.mask = np.ones(sset.breakpoints.shape, dtype='bool')
+        sset.coeff = np.zeros(sset.icoeff.shape, dtype=sset.icoeff.dtype)
     else:
         if not maskwork.any():
             raise ValueError('No valid data points.')
